@@ -206,6 +206,24 @@ def c_restore(ctx):
     loop = any(isinstance(n, ast.For) and "original_params.items()" in src(n.iter) for n in ast.walk(exit_))
     ctx.check("C15.c.restore-attr", PARAMS, "LLMParams", "attribute branch", set1 and save1 and order1 and back1 and loop,
               "attribute parameters: __enter__ saves getattr(llm, param) before setattr; __exit__ writes every saved value back under the same hasattr test", line=enter.lineno)
+    # the restore of an attribute parameter may depend only on `hasattr(self.llm, param)`: no early continue/break, no test of the saved value
+    for lp in [n for n in ast.walk(exit_) if isinstance(n, ast.For) and "original_params.items()" in src(n.iter)]:
+        vv = lp.target.elts[1].id if isinstance(lp.target, ast.Tuple) and len(lp.target.elts) == 2 and isinstance(lp.target.elts[1], ast.Name) else None
+        skips = [x for x in ast.walk(lp) if isinstance(x, (ast.Continue, ast.Break, ast.Return))]
+        sets = [c for c in ast.walk(lp) if isinstance(c, ast.Call) and src(c.func) == "setattr" and len(c.args) == 3 and src(c.args[0]) == "self.llm" and src(c.args[2]) == (vv or "value")
+                and "model_kwargs" not in src(c.args[1])]
+        cond_on_value = []
+        for c in sets:
+            p_ = getattr(c, "_parent", None)
+            while p_ is not None and p_ is not lp:
+                if isinstance(p_, ast.If) and vv and any(isinstance(x, ast.Name) and x.id == vv for x in ast.walk(p_.test)):
+                    cond_on_value.append(p_)
+                p_ = getattr(p_, "_parent", None)
+        ok = bool(sets) and not skips and not cond_on_value
+        ctx.check("C15.c.restore-unconditional", PARAMS, "LLMParams.__exit__", "for %s in self.original_params.items()" % src(lp.target), ok,
+                  "every saved attribute value is written back; the restore depends on nothing but hasattr(self.llm, param)" if ok else
+                  "the restore of a saved attribute can be skipped (%s): an attribute whose configured value is None (e.g. max_tokens) keeps the per-request override for all later requests"
+                  % ("early `%s` in the loop" % type(skips[0]).__name__.lower() if skips else "it is conditional on the saved value"), line=lp.lineno)
     # branch 2: model_kwargs
     adds = [n for n in ast.walk(enter) if isinstance(n, ast.If) and re.search(r"param not in .*model_kwargs", src(n.test))]
     sets2 = any(isinstance(a, ast.Assign) and re.search(r"model_kwargs\[param\]", src(a.targets[0])) for a in ast.walk(enter))
